@@ -1,6 +1,6 @@
 '''C09 - each volume gets the material and density of the owning MCNP cell.'''
 from .. import model as M
-from .. import gen_cells, gen_univ, gen_lat, matref
+from .. import gen_cells, gen_univ, gen_lat, gen_mix, matref
 from ..judge import convert_deck, crash_violation, region_agreement, summarise
 
 ID = 'C09'
@@ -37,6 +37,7 @@ SOURCES = {
     'lat': (gen_lat.build_rect, ['ortho-2d', 'array-own', 'array-zero',
                                  'cli-single', 'skew-2d']),
     'hex': (gen_lat.build_hex, ['regular-6', 'array-own-zero']),
+    'mix': (gen_mix.build, ['univ+rect', 'cells+hex', 'three']),
     'like': (None, ['mat-rho', 'rho-only', 'chain', 'everything']),
 }
 MODES = ['distinct', 'same-value-respelled', 'different-value', 'void-mix',
